@@ -14,9 +14,13 @@ META = dict(
     technique="Coq theorems (induction over iteration lists / draws / slices, real analysis of the affine scaling) on a model of the "
               "three personalisation algorithms whose decision rules are regenerated from the Python AST; the model's executable "
               "definitions are run inside Coq (vm_compute, exact rationals) on the recorded chains of real seeded personalisations "
-              "and on the real _AffineScalings1D; implementation-side oracles on every kind x algorithm x cohort shape",
+              "(default and non-default annealing schedules: single plateau ending at T=3, 3 plateaus, oscillations; burn-in 0 / n-1 / fractions) "
+              "and on the real _AffineScalings1D, through a header that imports no regenerated file, next to an exact recomputation in the harness "
+              "(a mismatch is shrunk to the offending individual and the two competing iterations and replayed on the real estimator); directed "
+              "calls of the real estimators on synthetic histories with exact ties; implementation-side oracles on every kind x algorithm x cohort shape",
     level_text="Unbounded theorems: kept draws = iterations nb+1..n (count n-nb, none from burn-in); mode_posterior = for each individual the "
-               "kept draw of minimal attachment+regularity, first index on ties; mean_posterior = exact mean over the kept draws; output "
+               "kept draw of minimal UNTEMPERED attachment+regularity, first index on ties, for every temperature schedule of the run "
+               "(C17_mode_ignores_temperature); mean_posterior = exact mean over the kept draws; output "
                "aligned with the input identifiers (order, one entry each, declared shapes) for all three algorithms; slices partition the "
                "stacked vector, stack/unstack and scaling/unscaling are mutually inverse; obj(result) <= obj(start) in natural coordinates "
                "UNDER the named hypothesis minimise_monotone on the optimiser (the code adds no guard; refuted without it).",
